@@ -31,7 +31,7 @@ def main():
             'thorough_cmd': f'./check run {pid} --tier thorough',
             'evidence_file': f'evidence/{pid}.json',
             'replay_cmd_template': './check replay {path}',
-            'engine': 'histsim',
+            'engine': 'histsim+mirisim' if pid in ('C01', 'C03', 'C05', 'C09', 'C20') else 'histsim',
             'level_claimed': {'category': cat, 'text': text, 'design_ref': 'DESIGN.md §' + ref},
             'level_note': "Trusted: the harness (String model, shadow heap, generators), rustc/std, Miri where used; operations are atomic in this engine; seeded sampling, so a clean batch is evidence and not proof; x86_64 host (32-bit only under Miri's i686 target).",
             'technique': TECH_HIST,
@@ -63,7 +63,7 @@ def main():
         ],
         'checks': checks,
         'not_applicable': na,
-        'notes': 'Genuine defects found and repaired are listed in known_findings.json (status fixed) and DESIGN.md §7; pre-fix demonstrations are in findings/prefix/.',
+        'notes': 'Six genuine defects were found and repaired by fix: commits in /repo (known_findings.json, all status fixed; DESIGN.md section 7; pre-fix demonstrations in findings/prefix/). 78 seeded breaking changes (seeded/) are all reported by some quick check, 12 behaviour-preserving refactorings (refactorings/) by none (DESIGN.md sections 10.4, 10.5). The mirisim tiers need the nightly toolchain with Miri (pre-installed); ./check setup builds its sysroots for x86_64 and i686 offline.',
     }
     engines_extra = os.path.join(HERE, 'manifest_engines_extra.json')
     if os.path.exists(engines_extra):
